@@ -1,7 +1,8 @@
 // Driver for C24: real typha snapcache.Cache + syncserver.Server + syncclient.SyncerClient over loopback TCP.
 //
 // The driver plays the upstream syncer (Cache.OnUpdates / OnStatusUpdated; every value carries a per-key
-// strictly increasing version, a deletion carries its version in the KV revision), starts clients at
+// strictly increasing version in its KV revision - deletions too - and a value from a small domain, so that the same
+// value can come back: A -> B -> A inside one batch), starts clients at
 // script-chosen points (streamed-snapshot clients and binary-snapshot clients), makes clients slow by
 // blocking their callbacks at a gate, and inserts "settle" points: a marker key is written upstream and
 // the driver waits (bounded) until every client that is not held has been given it.  At the end all
@@ -68,6 +69,7 @@ func (p *plog) emit(proc, ev string, f map[string]any) {
 type kv struct {
 	K   string `json:"k"`
 	Ver int    `json:"ver"`
+	Val int    `json:"val"` // value drawn from a small domain (the same value can come back); 0 for a deletion
 	Del bool   `json:"del"`
 }
 
@@ -136,16 +138,16 @@ func (c *client) OnUpdates(us []api.Update) {
 			fatal("unexpected key type %T", u.Key)
 		}
 		ver, _ := strconv.Atoi(u.Revision)
-		vv := 0
+		val := 0
 		if u.Value != nil {
 			s, _ := u.Value.(string)
-			s = strings.TrimPrefix(s, "v")
+			s = strings.TrimPrefix(s, "x")
 			if i := strings.Index(s, ":"); i >= 0 {
 				s = s[:i]
 			}
-			vv, _ = strconv.Atoi(s)
+			val, _ = strconv.Atoi(s)
 		}
-		kvs = append(kvs, map[string]any{"k": k.Name, "ver": ver, "del": u.Value == nil, "vv": vv})
+		kvs = append(kvs, map[string]any{"k": k.Name, "ver": ver, "val": val, "del": u.Value == nil})
 		if strings.HasPrefix(k.Name, markerPrefix) && u.Value != nil {
 			if n, err := strconv.Atoi(k.Name[len(markerPrefix):]); err == nil && n > c.marker {
 				c.marker = n
@@ -167,6 +169,7 @@ type drv struct {
 	addr    string
 	vers    map[string]int
 	present map[string]bool
+	curval  map[string]int
 	clients map[string]*client
 	order   []string
 	pad     int
@@ -178,7 +181,7 @@ func (d *drv) begin(t int, keys, clients []string, maxBatch, maxMsg, pad int) {
 	d.nmark = 0
 	d.pl.seq = map[string]int{}
 	d.ctx, d.cancel = context.WithCancel(context.Background())
-	d.vers, d.present = map[string]int{}, map[string]bool{}
+	d.vers, d.present, d.curval = map[string]int{}, map[string]bool{}, map[string]int{}
 	d.clients, d.order = map[string]*client{}, nil
 	d.pad = pad
 	d.cache = snapcache.New(snapcache.Config{MaxBatchSize: maxBatch, WakeUpInterval: 50 * time.Millisecond})
@@ -238,6 +241,14 @@ func (d *drv) up(items []kv) {
 		if it.Del && !d.present[it.K] {
 			continue
 		}
+		if !it.Del {
+			if it.Val == 0 {
+				it.Val = 1
+			}
+			if d.present[it.K] && d.curval[it.K] == it.Val {
+				continue // a syncer only reports changes
+			}
+		}
 		d.vers[it.K]++
 		v := d.vers[it.K]
 		u := api.Update{KVPair: model.KVPair{Key: model.GlobalConfigKey{Name: it.K}, Revision: strconv.Itoa(v)}}
@@ -250,15 +261,20 @@ func (d *drv) up(items []kv) {
 			} else {
 				u.UpdateType = api.UpdateTypeKVNew
 			}
-			val := "v" + strconv.Itoa(v)
+			val := "x" + strconv.Itoa(it.Val)
 			if d.pad > 0 {
-				val += ":" + strings.Repeat("x", d.pad)
+				val += ":" + strings.Repeat("p", d.pad)
 			}
 			u.Value = val
 			d.present[it.K] = true
+			d.curval[it.K] = it.Val
 		}
 		us = append(us, u)
-		rec = append(rec, kv{K: it.K, Ver: v, Del: it.Del})
+		rv := it.Val
+		if it.Del {
+			rv = 0
+		}
+		rec = append(rec, kv{K: it.K, Ver: v, Val: rv, Del: it.Del})
 	}
 	if len(us) == 0 {
 		return
@@ -390,7 +406,7 @@ func (d *drv) step(op map[string]any) {
 		for _, x := range op["kvs"].([]any) {
 			m := x.(map[string]any)
 			del, _ := m["del"].(bool)
-			items = append(items, kv{K: tracelog.Str(m["k"]), Del: del})
+			items = append(items, kv{K: tracelog.Str(m["k"]), Val: tracelog.Int(m["val"]), Del: del})
 		}
 		d.up(items)
 	case "status":
@@ -429,7 +445,8 @@ func (d *drv) random(t int, rnd *rand.Rand) {
 	if rnd.Intn(4) == 0 {
 		pad = 20000 // fat values: socket buffers fill up and the server's writes really block behind a held client
 	}
-	d.begin(t, keys, clients, 2+rnd.Intn(3), 1+rnd.Intn(3), pad)
+	nv := 2 + rnd.Intn(2)
+	d.begin(t, keys, clients, 2+rnd.Intn(7), 1+rnd.Intn(3), pad)
 	steps := 20 + rnd.Intn(40)
 	insyncAt := rnd.Intn(steps)
 	next := 0
@@ -445,11 +462,21 @@ func (d *drv) random(t int, rnd *rand.Rand) {
 			seen := map[string]bool{}
 			for j := 0; j < n; j++ {
 				k := keys[rnd.Intn(nk)]
-				if seen[k] {
+				if seen[k] && rnd.Intn(2) == 0 {
 					continue
 				}
 				seen[k] = true
-				items = append(items, kv{K: k, Del: rnd.Intn(4) == 0})
+				items = append(items, kv{K: k, Val: 1 + rnd.Intn(nv), Del: rnd.Intn(4) == 0})
+				if rnd.Intn(3) == 0 { // the same key again within the batch: flap back / delete + re-create
+					switch rnd.Intn(3) {
+					case 0:
+						items = append(items, kv{K: k, Val: 1 + rnd.Intn(nv)}, kv{K: k, Val: 1 + rnd.Intn(nv)})
+					case 1:
+						items = append(items, kv{K: k, Del: true}, kv{K: k, Val: 1 + rnd.Intn(nv)})
+					case 2:
+						items = append(items, kv{K: k, Val: 1 + rnd.Intn(nv)})
+					}
+				}
 			}
 			d.up(items)
 		case c < 62:
@@ -478,6 +505,55 @@ func (d *drv) random(t int, rnd *rand.Rand) {
 	d.finish()
 }
 
+// flaps: value flaps of one key inside ONE input batch (one OnUpdates call, MaxBatchSize large enough to hold it in one
+// breadcrumb), with a client connected throughout and a client joining afterwards.  Inputs only: the verdict is the
+// property layer's (upstream truth after the drain, for both clients).
+func (d *drv) flaps(t int, rnd *rand.Rand, variant int) {
+	keys := []string{"k1", "k2", "k3"}
+	d.begin(t, keys, []string{"c1", "c2"}, 8+rnd.Intn(8), 1+rnd.Intn(3), 0)
+	A, B, C := 1, 2, 3
+	if rnd.Intn(2) == 0 {
+		d.status("resync")
+	}
+	d.up([]kv{{K: "k1", Val: A}, {K: "k2", Val: A}})
+	if rnd.Intn(2) == 0 {
+		d.up([]kv{{K: "k3", Val: C}})
+	}
+	d.settle()
+	d.join("c1", variant%2 == 0)
+	d.settle()
+	if rnd.Intn(2) == 0 {
+		d.status("insync")
+	}
+	if rnd.Intn(3) == 0 {
+		d.hold("c1", true)
+	}
+	switch (variant / 2) % 6 {
+	case 0: // A -> B -> A
+		d.up([]kv{{K: "k1", Val: B}, {K: "k1", Val: A}})
+	case 1: // A -> B -> C -> B
+		d.up([]kv{{K: "k1", Val: B}, {K: "k1", Val: C}, {K: "k1", Val: B}})
+	case 2: // A -> B -> C -> A
+		d.up([]kv{{K: "k1", Val: B}, {K: "k1", Val: C}, {K: "k1", Val: A}})
+	case 3: // present -> deleted -> present with the same value
+		d.up([]kv{{K: "k1", Del: true}, {K: "k1", Val: A}})
+	case 4: // two keys interleaved, one flapping back, one deleted and re-created
+		d.up([]kv{{K: "k1", Val: B}, {K: "k2", Val: B}, {K: "k1", Val: A}, {K: "k2", Del: true}, {K: "k2", Val: A}})
+	case 5: // flap back, then a later batch changes the key again
+		d.up([]kv{{K: "k1", Val: C}, {K: "k1", Val: A}, {K: "k2", Val: C}})
+		d.up([]kv{{K: "k2", Val: A}, {K: "k2", Val: B}, {K: "k2", Val: A}})
+	}
+	if rnd.Intn(2) == 0 {
+		d.settle()
+	}
+	d.hold("c1", false)
+	d.join("c2", variant%2 == 1) // joins after the batch: gets the snapshot
+	if rnd.Intn(2) == 0 {
+		d.status("insync")
+	}
+	d.finish()
+}
+
 func main() {
 	logrus.SetOutput(io.Discard)
 	logrus.SetLevel(logrus.PanicLevel)
@@ -499,7 +575,7 @@ func main() {
 	t := 0
 	for _, b := range behs {
 		t++
-		d.begin(t, []string{"a", "b"}, []string{"c1", "c2"}, 2, 1, 0)
+		d.begin(t, []string{"a", "b"}, []string{"c1", "c2"}, 3, 1, 0)
 		for _, op := range b {
 			d.step(op)
 		}
@@ -507,7 +583,12 @@ func main() {
 	}
 	for i := 0; i < env.N; i++ {
 		t++
-		d.random(t, rand.New(rand.NewSource(env.Seed*1000003+int64(i))))
+		rnd := rand.New(rand.NewSource(env.Seed*1000003 + int64(i)))
+		if i < 12 {
+			d.flaps(t, rnd, i)
+		} else {
+			d.random(t, rnd)
+		}
 	}
 	if err := lg.Close(); err != nil {
 		fatal("%v", err)
